@@ -36,7 +36,7 @@ func init() {
 func genC25B(seed uint64, tier string) *Case {
 	g := NewRng(seed)
 	c := &Case{P: map[string]int64{"policy": int64(g.Intn(4)), "adv": int64(g.Intn(3))}}
-	filters := []string{"*", "user", "user:deploy", "user:other", "member-join,user:deploy"}
+	filters := []string{"*", "user", "user:deploy", "user:other", "member-join,user:deploy", "user,user:deploy", "*,user:other"}
 	npre := 1 + g.Intn(3)
 	for i := 0; i < npre; i++ {
 		c.Steps = append(c.Steps, Step{Op: "pre", S: filters[g.Intn(len(filters))]})
